@@ -796,7 +796,11 @@ pub fn format_function_call_stmt(
 /// Functions which are used to only format a block within a statement
 /// These are used for range formatting
 pub(crate) mod stmt_block {
-    use crate::{context::Context, formatters::block::format_block, shape::Shape};
+    use crate::{
+        context::{Context, FormatNode},
+        formatters::block::format_block,
+        shape::Shape,
+    };
     #[cfg(feature = "luau")]
     use full_moon::ast::luau::TypeFunction;
     use full_moon::ast::{
@@ -809,10 +813,18 @@ pub(crate) mod stmt_block {
         table_constructor: &TableConstructor,
         shape: Shape,
     ) -> TableConstructor {
+        let mut ctx = *ctx;
         let fields = table_constructor
             .fields()
             .pairs()
             .map(|pair| {
+                // An ignored field (directive, or inside an ignore region of this table) is left as is
+                ctx = ctx.check_toggle_formatting(pair.value());
+                if let FormatNode::Skip = ctx.should_format_node(pair.value()) {
+                    return pair.to_owned();
+                }
+                let ctx = &ctx;
+
                 pair.to_owned().map(|field| match field {
                     Field::ExpressionKey {
                         brackets,
